@@ -171,7 +171,8 @@ def build_kwargs(opts):
         kw["tables"] = SLR
     elif opts.get("tables") == "LALR":
         kw["tables"] = LALR
-    for k in ("build_tree", "consume_input", "call_actions_during_tree_build", "debug_colors"):
+    for k in ("build_tree", "consume_input", "call_actions_during_tree_build", "debug_colors",
+              "return_position"):
         if k in opts:
             kw[k] = opts[k]
     if "ws" in opts:
